@@ -137,6 +137,19 @@ def phi(name, n):
     return ast.Name(id='%s@phi%d' % (name, n), ctx=ast.Load())
 
 
+def expand_star_dict(kws):
+    """f(**{'a': x, 'b': y}) is f(a=x, b=y)"""
+    out = []
+    for k in kws:
+        v = k.value
+        if k.arg is None and isinstance(v, ast.Dict) and v.keys and all(
+                isinstance(x, ast.Constant) and isinstance(x.value, str) and x.value.isidentifier() for x in v.keys):
+            out.extend(ast.keyword(arg=x.value, value=y) for x, y in zip(v.keys, v.values))
+        else:
+            out.append(k)
+    return out
+
+
 def is_phi(e, name=None):
     return isinstance(e, ast.Name) and '@phi' in e.id and (name is None or e.id.startswith(name + '@phi'))
 
@@ -957,7 +970,7 @@ class _Ev:
     def v_Call(self, e, cond):
         func = self.v(e.func, cond)
         args = [self.v(a, cond) for a in e.args]
-        kws = [ast.keyword(arg=k.arg, value=self.v(k.value, cond)) for k in e.keywords]
+        kws = expand_star_dict([ast.keyword(arg=k.arg, value=self.v(k.value, cond)) for k in e.keywords])
         new = ast.Call(func=func, args=args, keywords=kws)
         ast.copy_location(new, e)
         # getattr(x, 'name') is x.name
